@@ -127,6 +127,12 @@ func main() {
 	}
 
 	if run.Replay != "" {
+		var cc lsx.ConcCase
+		if err := run.ReadReplay(&cc); err == nil && cc.Kind == "conc-put" {
+			lsx.ConcPuts(run, cc)
+			run.Finish()
+			return
+		}
 		var h lsx.Hist
 		if err := run.ReadReplay(&h); err != nil {
 			panic(err)
@@ -168,6 +174,13 @@ func main() {
 		}
 		doHist(g.H, g.St)
 		g.St.Close()
+	}
+	// concurrency layer: N single-chunk Puts of one new address released together while a large
+	// batched Put holds batchMu (both non-pin modes; request mode also under a file context)
+	for i := 0; i < run.N(6, 60); i++ {
+		cc := lsx.ConcCase{Kind: "conc-put", Seed: run.R.U64(), Mode: []int{1, 0, 0}[i%3], Ctx: i%3 == 2,
+			Threads: 2 + run.R.Intn(4), Rounds: run.N(5, 12)}
+		lsx.ConcPuts(run, cc)
 	}
 	run.Finish()
 }
